@@ -9,7 +9,11 @@ CallerObs(k) == IF pc[k]' = "done" THEN (IF res[k]' = "ok" THEN 100 + rm[k]' ELS
 ObsP == [callers |-> [k \in Callers |-> CallerObs(k)],
          wire |-> [i \in 1..Len(wire') |-> wire'[i].k]]
 
+\* TLCFP yields 32 bits: with 10^5 states two of them collide in most runs, and a collision merges two states
+\* of the dumped graph.  Two fingerprints of differently salted values give 64 bits.
+FP2(v) == <<TLCFP(v), TLCFP(<<"salt", v>>)>>
+
 EdgeDump == IF "GEN_OUT" \in DOMAIN IOEnv
-            THEN CSVWrite("%1$s", <<ToJson([f |-> TLCFP(View), a |-> last', t |-> TLCFP(View'), o |-> ObsP])>>, IOEnv.GEN_OUT)
+            THEN CSVWrite("%1$s", <<ToJson([f |-> FP2(View), a |-> last', t |-> FP2(View'), o |-> ObsP])>>, IOEnv.GEN_OUT)
             ELSE TRUE
 =============================================================================
